@@ -300,7 +300,7 @@ Section NoFail.
     ok_or_oof (snd (rem_list rr s ids skip now)).
   Proof.
     induction ids as [|j r IH]; intros s Hf; cbn [rem_list]; [exact I|].
-    destruct (String.eqb j skip); [apply IH; exact Hf|].
+    destruct (skipped skip j); [apply IH; exact Hf|].
     pose proof (rr_ok s j Hf) as Ho. pose proof (rr_Sub s j now) as HS.
     destruct (rr s j now) as [s1 o]. cbn [fst snd] in *.
     destruct o as [b|e|w|]; try contradiction; [|exact I].
